@@ -109,10 +109,39 @@ def run(facts, tier):
             t2.violate("doubling", f"CSV writer replaces {got}; the quote must be doubled", where=wf["sp"])
         if quotes.count(b'"') < 2:
             t2.violate("wrap", "CSV writer does not wrap text fields in quotes", where=wf["sp"])
-        cond = [n for n in find(wf["body"], lambda n: n.get("k") == "If" or (n.get("k") == "Match" and n.get("src") == "Normal"))]
-        t2.examined("unconditional", True, {"text_fields_always_quoted": not cond})
-        if cond:
-            t2.violate("conditional-quoting", "CSV writer quotes text fields only under a condition: an unquoted field spelled like a number, a boolean or the empty string reads back as another value", where=cond[0]["sp"])
+        # every write of field content is preceded by the opening quote and followed by the closing quote on all
+        # non-error paths (a branch that only chooses *how* the content is written, e.g. a copy-free fast path, is fine;
+        # a path that writes content without the quotes is conditional quoting)
+        wm = facts.mir_fn("jaq_fmts::write::tabular::write_csv_str")
+        if wm is None:
+            t2.missing_anchor("write_csv_str (MIR)")
+        else:
+            mb = Body(wm)
+            QUOTE = ('"\\""', 'b"\\""', "'\"'", "b'\"'")
+
+            def const_txt(o):
+                return (o.get("k") or {}).get("txt") if isinstance(o, dict) else None
+            quote_locals = set()
+            for i_, t_ in mb.calls():
+                if any(const_txt(a_) in QUOTE for a_ in t_["args"]) and re.search(r"Arguments::<.*>::(from_str|new_const)$|Arguments::from_str$", t_.get("fn") or ""):
+                    quote_locals |= mb.derived_from([t_["d"]["l"]])
+            writes = mb.find_calls(r"^std::io::Write::(write_fmt|write_all|write)$")
+            qwrites = [w_ for w_ in writes if (set(mb.arg_locals(w_)) & quote_locals) or any(const_txt(a_) in QUOTE for a_ in mb.bbs[w_]["t"]["args"])]
+            content = [w_ for w_ in writes if w_ not in qwrites]
+            errs = set(mb.find_calls(r"FromResidual<.*>>::from_residual$|FromResidual::from_residual$"))
+            ok = len(qwrites) >= 2 and bool(content)
+            why = ""
+            for c_ in content:
+                before = [q for q in qwrites if mb.node_dominates(q, c_)]
+                after = [q for q in qwrites if q not in before]
+                nxt = [t_ for t_, k_ in mb.succ(c_, unwind=False)]
+                if not before:
+                    ok, why = False, "content is written on a path that has not written the opening quote"
+                elif not after or not all(mb.always_reaches(n_, set(after) | errs) for n_ in nxt):
+                    ok, why = False, "content is written on a path that does not go on to write the closing quote"
+            t2.examined("unconditional", True, {"text_fields_always_quoted": ok, "quote_writes": len(qwrites), "content_writes": len(content)})
+            if not ok:
+                t2.violate("conditional-quoting", "CSV writer does not quote text fields on every path (" + (why or f"{len(qwrites)} quote writes, {len(content)} content writes") + "): an unquoted field spelled like a number, a boolean or the empty string reads back as another value", where=wm["sp"])
         for f in rf:
             for call in find(f["body"], lambda n: n.get("k") == "Call" and (strip(n["f"]).get("path") or {}).get("def") == "jaq_fmts::read::tabular::field"):
                 sep, q = lit_bytes(call["args"][1]), lit_bytes(call["args"][2])
